@@ -482,8 +482,8 @@ pub fn c04(ctx: &Ctx) -> Report {
     let p = &["C04"];
     rep.rule.push("E1: BFS to fixpoint over whole note messages (note-on, both spellings of note-off, All-Notes-Off, foreign-channel traffic, priority and retrigger switches) delivered byte by byte to the real receiver, bounded by K outstanding note-ons; after every message gate(), note_num() and velocity() must equal a Vec-of-outstanding-note-ons reference model; non-trivial = transitions that release a non-last note, repeat a held note, release a note not held, clear >= 2 notes at once or switch priority with >= 2 notes held".into());
     if ctx.tier.is_thorough() {
-        run_m(ctx, &mut rep, 0, main_alphabet(6), "notes {5,64,127} x velocities {1,127}, K=6", p);
-        run_m(ctx, &mut rep, 3, Alphabet { notes: vec![0, 5, 64, 127], vels: vec![100], ..main_alphabet(4) }, "4 notes, K=4", p);
+        run_m(ctx, &mut rep, 0, main_alphabet(7), "notes {5,64,127} x velocities {1,127}, K=7", p);
+        run_m(ctx, &mut rep, 3, Alphabet { notes: vec![0, 5, 64, 127], vels: vec![100], ..main_alphabet(5) }, "4 notes, K=5", p);
         run_m(ctx, &mut rep, 7, Alphabet { notes: vec![60, 61], vels: vec![64], ..main_alphabet(10) }, "2 notes, K=10", p);
         run_m(ctx, &mut rep, 15, Alphabet { notes: vec![60], vels: vec![1, 127], ..main_alphabet(32) }, "1 note up to the documented capacity, K=32", p);
         run_m(ctx, &mut rep, 4, Alphabet { notes: vec![60], vels: vec![100], edge_note: Some(40), ..main_alphabet(32) }, "capacity K=32 with a lower note as oldest / newest entry", p);
@@ -492,12 +492,58 @@ pub fn c04(ctx: &Ctx) -> Report {
             run_m(ctx, &mut rep, ch, main_alphabet(2), &format!("channel {}, K=2", ch), p);
         }
     } else {
-        run_m(ctx, &mut rep, 0, main_alphabet(5), "notes {5,64,127} x velocities {1,127}, K=5", p);
+        run_m(ctx, &mut rep, 0, main_alphabet(6), "notes {5,64,127} x velocities {1,127}, K=6", p);
+        run_m(ctx, &mut rep, 7, Alphabet { notes: vec![60, 61], vels: vec![64], ..main_alphabet(10) }, "2 notes, K=10", p);
         run_m(ctx, &mut rep, 15, Alphabet { notes: vec![60], vels: vec![1, 127], ..main_alphabet(32) }, "1 note up to the documented capacity, K=32", p);
         run_m(ctx, &mut rep, 4, Alphabet { notes: vec![60], vels: vec![100], edge_note: Some(40), ..main_alphabet(32) }, "capacity K=32 with a lower note as oldest / newest entry", p);
         for ch in [0u8, 9, 15] {
             run_m(ctx, &mut rep, ch, main_alphabet(2), &format!("channel {}, K=2", ch), p);
         }
+    }
+    // every note number and every velocity: all (n1, n2) pairs x four third notes x 3 priorities x 2 retrigger modes,
+    // one fixed script of eight note messages each, judged by the same model after every message
+    {
+        let pv: Vec<&'static str> = p.to_vec();
+        let pr = &pv;
+        par_ranges(ctx, &mut rep, 128 * 128, 256, |_, lo, hi, lc| {
+            for i in lo..hi {
+                let n1 = (i / 128) as u8;
+                let n2 = (i % 128) as u8;
+                for n3 in [0u8, 127, n1, ((n1 as u16 + n2 as u16) / 2) as u8] {
+                    for mode in 0..6u8 {
+                        let ch = ((n1 as u16 * 5 + n2 as u16 + mode as u16) % 16) as u8;
+                        let mut m = MidiM::new(ch, Alphabet { notes: vec![], vels: vec![], k: 32, modes: true, polls: false, ccs: vec![], bends: vec![], foreign: false, edge_note: None });
+                        let v = |k: u32| -> u8 { (1 + (n1 as u32 * 7 + n2 as u32 * 3 + n3 as u32 + k * 31 + mode as u32) % 127) as u8 };
+                        let script = [MOp::Prio(mode % 3), MOp::Retrig(mode >= 3), MOp::On(n1, v(0)), MOp::On(n2, v(1)), MOp::On(n3, v(2)), MOp::Off(n2), MOp::On(n2, v(3)), MOp::OffV0(n1), MOp::Off(n3), MOp::Off(n2)];
+                        for (k, op) in script.iter().enumerate() {
+                            let mut out = StepOut::new();
+                            let r = std::panic::catch_unwind(std::panic::AssertUnwindSafe(|| m.apply(op, &mut out)));
+                            lc.count("note_sweep_messages", 1);
+                            let ops = || script[..=k].iter().map(MidiM::op_str).collect::<Vec<_>>();
+                            if let Err(e) = r {
+                                lc.violation(Violation { prop: "C04", class: "panic".into(), detail: format!("the real code panicked: {}", panic_msg(&e)), machine: "midi", config: json!({"channel": ch}), ops: ops() });
+                                break;
+                            }
+                            let mut stop = false;
+                            for f in out.flags {
+                                if pr.contains(&f.prop) {
+                                    lc.violation(Violation { prop: f.prop, class: f.class, detail: f.detail, machine: "midi", config: json!({"channel": ch}), ops: ops() });
+                                    stop = true;
+                                }
+                            }
+                            if stop {
+                                break;
+                            }
+                        }
+                    }
+                }
+            }
+        });
+        let n = rep.counters.get("note_sweep_messages").copied().unwrap_or(0);
+        rep.evaluations += n;
+        rep.transitions += n;
+        rep.traces += n;
+        rep.subruns.push(json!({"engine": "E2-sweep", "what": "all 128 x 128 note-number pairs x 4 third notes x 6 mode combinations, 8-message script, velocities cycling through 1..127, channel cycling through 0..15", "messages": n}));
     }
     // complement without state matching: every operation sequence up to a depth (immune to an incomplete state key)
     enumerate_sequences(&MidiM::new(0, Alphabet { notes: vec![5, 64], vels: vec![100], ..main_alphabet(4) }), if ctx.tier.is_thorough() { 6 } else { 5 }, ctx, &mut rep, p, "all message sequences, no state matching");
@@ -522,13 +568,13 @@ pub fn c05(ctx: &Ctx) -> Report {
     rep.rule.push("E1: BFS to fixpoint over note messages, All-Notes-Off, mode switches and the two self-clearing edge polls as ordinary operations (so a poll occurs at every position and with any number of messages between polls); every poll result must equal the reference latch (rising: set by a note-on that finds the gate low or arrives in retrigger mode, cleared by a gate drop or a read; falling: set by every true->false gate change, cleared by a note-on or a read); non-trivial = polls for which the reference expects true".into());
     let polls = |k: usize| Alphabet { polls: true, ..main_alphabet(k) };
     if ctx.tier.is_thorough() {
-        run_m(ctx, &mut rep, 0, polls(5), "notes {5,64,127} x velocities {1,127}, K=5, with polls", p);
+        run_m(ctx, &mut rep, 0, polls(6), "notes {5,64,127} x velocities {1,127}, K=6, with polls", p);
         run_m(ctx, &mut rep, 9, Alphabet { notes: vec![60, 61], vels: vec![64], ..polls(8) }, "2 notes, K=8, with polls", p);
         run_m(ctx, &mut rep, 15, Alphabet { notes: vec![60], vels: vec![100], ..polls(32) }, "1 note, K=32, with polls", p);
         crate::sr::cross_check_midi(ctx, &mut rep, polls(3), &["C05"]);
         key_selfcheck(MidiM::new(0, polls(2)), 300_000, &mut rep, "midi message machine with polls");
     } else {
-        run_m(ctx, &mut rep, 0, polls(3), "notes {5,64,127} x velocities {1,127}, K=3, with polls", p);
+        run_m(ctx, &mut rep, 0, polls(4), "notes {5,64,127} x velocities {1,127}, K=4, with polls", p);
         run_m(ctx, &mut rep, 15, Alphabet { notes: vec![60], vels: vec![100], ..polls(8) }, "1 note, K=8, with polls", p);
         run_m(ctx, &mut rep, 4, Alphabet { notes: vec![60], vels: vec![100], edge_note: Some(40), modes: false, ..polls(32) }, "capacity K=32 with a second note as oldest / newest entry, with polls", p);
     }
